@@ -725,7 +725,8 @@ func (e *eng) exec(op gop) stepRes {
 	return sr
 }
 
-// expand turns a "round" macro into single approvals by consecutive current consensus validators.
+// expand turns a "round" macro into single approvals by consecutive current consensus validators
+// (W 0), their owner wallets (2), both (3) or the non-consensus members of the pool (4).
 func (e *eng) expand(op gop) []gop {
 	if op.K != kRound {
 		return []gop{op}
@@ -742,6 +743,20 @@ func (e *eng) expand(op gop) []gop {
 	for k, it := range pl.Items {
 		if a, ok := addrOfPub(k); ok {
 			ownerOfNode[a] = it.Address
+		}
+	}
+	if op.W == 4 { // W 4: the approvers are the pool members that are NOT consensus validators
+		// (approved candidates before the epoch change, quitting and blacklisted peers), in key order
+		order = nil
+		for _, k := range pl.keys() {
+			if it := pl.Items[k]; it.Status != node_manager.ConsensusStatus {
+				if a, ok := addrOfPub(k); ok {
+					order = append(order, a)
+				}
+			}
+		}
+		if len(order) == 0 {
+			return nil
 		}
 	}
 	cnt := op.C
@@ -762,7 +777,7 @@ func (e *eng) expand(op gop) []gop {
 	for i := 0; i < cnt; i++ {
 		ad := order[mod(op.A+i, len(order))]
 		// W: 0 the validators' node addresses approve, 2 their owner wallets, 3 both
-		if op.W == 0 || op.W == 3 {
+		if op.W == 0 || op.W == 3 || op.W == 4 {
 			if idx, ok := e.byAddr[ad]; ok { // (a consensus key outside the actor table: re-initialised pool)
 				out = append(out, gop{K: op.M, A: idx, B: op.B, V: op.V, L: op.L})
 			}
